@@ -16,6 +16,7 @@ code->spec: the hook events (load) and the recorded call events (invoke attempt 
 import json
 import os
 import random
+import time
 from concurrent.futures import ProcessPoolExecutor, ThreadPoolExecutor
 from fractions import Fraction
 
@@ -167,8 +168,11 @@ def _drive(args):
     return gen.run_driver('harness.drivers.retry', root, payload, timeout=1500)
 
 
+JAVA_MEM = {'JAVA_TOOL_OPTIONS': '-Xmx3g'}     # several JVMs run side by side: bound each heap
+
+
 def _validate(batch):
-    return tlc.validate_all('RetryTrace', 'RetryTrace.cfg', batch, timeout=1500)
+    return tlc.validate_all('RetryTrace', 'RetryTrace.cfg', batch, timeout=1500, env=JAVA_MEM)
 
 
 # ---- comparison ---------------------------------------------------------------------------------------------------
@@ -218,15 +222,20 @@ def main(chk, args):
     # 1. TLC: the specification satisfies the property; cases (spec -> code) ------------------------------------------
     scopes = ['table', 'sel_small', 'values'] if quick else ['table', 'sel_small', 'sel_full', 'sel3', 'values']
     runcfg = 'Retry.emit.run.small.cfg' if quick else 'Retry.emit.run.full.cfg'
-    jobs = {'check small': lambda: tlc.run('Retry', 'Retry.small.cfg', deadlock=False, timeout=1500, workers=4 if quick else 8)}
+    jobs = {'check small': lambda: tlc.run('Retry', 'Retry.small.cfg', deadlock=False, timeout=1500, workers=4, env=JAVA_MEM)}
     if not quick:
-        jobs['check full'] = lambda: tlc.run('Retry', 'Retry.full.cfg', deadlock=False, timeout=1500, workers=8)
+        jobs['check full'] = lambda: tlc.run('Retry', 'Retry.full.cfg', deadlock=False, timeout=1500, workers=6, env=JAVA_MEM)
     for sc in scopes:
-        jobs['emit ' + sc] = (lambda sc=sc: tlc.emit_cases('Retry', f'Retry.emit.{sc}.cfg', deadlock=False, timeout=1500))
-    jobs['emit run'] = lambda: tlc.emit_cases('Retry', runcfg, deadlock=False, timeout=1500)
+        jobs['emit ' + sc] = (lambda sc=sc: tlc.emit_cases('Retry', f'Retry.emit.{sc}.cfg', deadlock=False, timeout=1500, env=JAVA_MEM))
+    jobs['emit run'] = lambda: tlc.emit_cases('Retry', runcfg, deadlock=False, timeout=1500, env=JAVA_MEM)
+    t0 = time.time()
+
+    def lap(what):
+        print(f'[C09] {what}: {time.time() - t0:.0f}s', flush=True)
     with ThreadPoolExecutor(len(jobs)) as ex:
         futs = {k: ex.submit(f) for k, f in jobs.items()}
         results = {k: f.result() for k, f in futs.items()}
+    lap('TLC model checking and case emission')
     resolve_cases, run_cases, sels = [], [], None
     for k, r in results.items():
         if k.startswith('check'):
@@ -270,6 +279,7 @@ def main(chk, args):
             resolved_obs = []
             for f in fut_res:
                 resolved_obs.extend(f.result())
+        lap(f'generation layer: {len(enum_cases)} configs through API.build, {len(cids)} table configs generated')
         for c, o in list(zip(enum_cases, resolved_obs)) + [(table[cid], gens[cid]) for cid in cids]:
             key = ('table%d:' % c['cid'] if c['cid'] else '') + cfg_key(c['cfg'])
             pred = predicted_methods(c, sels)
@@ -310,6 +320,7 @@ def main(chk, args):
                 if not ok:
                     raise core.MachineryError('retry driver failed:\n' + err)
                 runs.extend(out['traces'])
+    lap(f'{len(runs)} calls driven')
     # 4. spec -> code comparison of the calls ---------------------------------------------------------------------------
     for tr in runs:
         c = by_id[tr['id']]
@@ -325,13 +336,14 @@ def main(chk, args):
                        dict(case=c, trace=tr)))
     # 5. code -> spec: batched trace validation ----------------------------------------------------------------------------
     rnd.shuffle(traces)          # balance the batches (deterministic given the seed)
-    nb = max(1, min(12, len(traces) // 1500))
+    nb = max(1, -(-len(traces) // 10000)) if len(traces) > 12000 else max(1, min(6, len(traces) // 1500))
     batches = [traces[i::nb] for i in range(nb)]
-    with ThreadPoolExecutor(nb) as ex:
+    with ThreadPoolExecutor(min(nb, 6)) as ex:
         try:
             vals = list(ex.map(_validate, [[t[1] for t in b] for b in batches]))
         except RuntimeError as e:
             raise core.MachineryError(str(e))
+    lap(f'{len(traces)} traces validated in {nb} batches')
     nacc = nrej = nruns = 0
     for b, (accepted, rejected, rs) in zip(batches, vals):
         for r3 in rs:
